@@ -15,6 +15,38 @@ import (
 	"qeepverif/internal/ref"
 )
 
+// SpareInts copies a dims / shape list into a slice that has SPARE CAPACITY (as `like.Shape()[:3]` or `append(batchDims, f)`
+// have): an `append` on it inside the library writes into memory the caller still owns.
+func SpareInts(v []int) []int {
+	if v == nil {
+		return nil
+	}
+	c := make([]int, len(v), len(v)+4)
+	copy(c, v)
+	for i := len(v); i < cap(c); i++ {
+		c[:cap(c)][i] = 1000 + i // sentinels beyond the length
+	}
+	return c
+}
+
+// SpareIntact reports whether the elements and the sentinels beyond the length of a SpareInts slice are untouched.
+func SpareIntact(c, v []int) bool {
+	if len(c) != len(v) {
+		return false
+	}
+	for i := range v {
+		if c[i] != v[i] {
+			return false
+		}
+	}
+	for i := len(v); i < cap(c); i++ {
+		if c[:cap(c)][i] != 1000+i {
+			return false
+		}
+	}
+	return true
+}
+
 func Conf(tracked bool) *tensor.Config { return &tensor.Config{Device: tensor.CPU, GradTrack: tracked} }
 
 // Nested builds the nested-slice form of a reference tensor of rank <= 4.
@@ -225,6 +257,60 @@ func derivedFrom(t *ref.T, h uint64) (tensor.Tensor, error) {
 			touch(x)
 		}
 		return x, err
+	case 15: // a MatMul product: t x I or I x t (exact for finite values; a negative zero would lose its sign in the sum)
+		r := len(t.Shape)
+		if r < 2 {
+			return nil, nil
+		}
+		for _, v := range t.Data {
+			if v != v || v-v != 0 || (v == 0 && math.Signbit(v)) {
+				return nil, nil
+			}
+		}
+		src, err := directLeaf(t, false)
+		if err != nil {
+			return nil, err
+		}
+		if (h>>44)%2 == 0 {
+			id, err := tensor.Eye(t.Shape[r-1], Conf(false))
+			if err != nil {
+				return nil, err
+			}
+			return src.MatMul(id)
+		}
+		id, err := tensor.Eye(t.Shape[r-2], Conf(false))
+		if err != nil {
+			return nil, err
+		}
+		return id.MatMul(src)
+	case 5: // the result of an element-wise operation that changes nothing: Scale(1)
+		src, err := directLeaf(t, false)
+		if err != nil {
+			return nil, err
+		}
+		return src.Scale(1), nil
+	case 4: // the Transpose of the transposed data
+		r := len(t.Shape)
+		if r < 2 {
+			return nil, nil
+		}
+		m, n := t.Shape[r-2], t.Shape[r-1]
+		ts := ref.CopyInts(t.Shape)
+		ts[r-2], ts[r-1] = n, m
+		td := make([]float64, len(t.Data))
+		for b := 0; b < len(t.Data)/(m*n); b++ {
+			for i := 0; i < m; i++ {
+				for j := 0; j < n; j++ {
+					td[b*m*n+j*m+i] = t.Data[b*m*n+i*n+j]
+				}
+			}
+		}
+		src, err := directLeaf(ref.New(ts, td), false)
+		if err != nil {
+			return nil, err
+		}
+		touch(src)
+		return src.Transpose()
 	}
 	return nil, nil
 }
@@ -332,7 +418,7 @@ func execS(in ref.Instr, xs []tensor.Tensor, scrib *[]func()) (tensor.Tensor, er
 		}
 	}
 	ints := func(v []int) []int {
-		c := ref.CopyInts(v)
+		c := SpareInts(v)
 		note(func() {
 			for i := range c {
 				c[i] = 97 + i
